@@ -167,9 +167,101 @@ def r5_settings_delta(ctx):
     r.check(len(subs) >= 2, 'delta|amounts', f.file, 'both deltas are computed by subtraction of old and new value')
 
 
+def _guard_atoms(F, f, edges):
+    """atoms (calls, fields, constants) of the switch subjects that decide the given edges, and of the
+    switches dominating them within the same short-circuit chain"""
+    atoms = set()
+    for (a, b) in edges:
+        sw = core.resolve_switch(F, f, a)
+        for x in walk(sw.subject):
+            if x[0] == 'call' and x[1].startswith('proto::'):
+                atoms.add('call:' + x[1].split('::')[-1])
+            if x[0] == 'field' and x[2].startswith('proto::'):
+                atoms.add('field:' + x[3])
+            if x[0] == 'const' and isinstance(x[1], int):
+                atoms.add('const:%d' % x[1])
+    return atoms
+
+
+def skip_guard(F, f):
+    """atoms of the condition under which the function returns early with Ok(()) before touching the window"""
+    touch = [bi for bi, t in f.calls(lambda t: t['fn'] in (FC + 'dec_send_window', FC + 'inc_window'))]
+    if not touch:
+        return None
+    # switches from which one successor reaches a return without passing `touch` and another reaches `touch`
+    edges = []
+    for bi, sw in core.all_switches(F, f).items():
+        if not all(f.dominated_by_blocks(t, [bi]) or True for t in touch):
+            continue
+        if not any(bi in f.reachable([0], cut_blocks=touch) for _ in (0,)):
+            continue
+        succs = list(sw.labels)
+        skip = [s for s in succs if not any(t in f.reachable([s]) for t in touch)]
+        go = [s for s in succs if any(t in f.reachable([s]) for t in touch)]
+        if skip and go and not sw_is_tracing(f, bi):
+            edges += [(bi, s) for s in skip]
+    # the short-circuit chain: deciding switches that dominate a skip edge and can still reach the window update
+    chain = list(edges)
+    dom = f.dom
+    for (a, b) in edges:
+        for bi, sw in core.all_switches(F, f).items():
+            if bi != a and bi in dom.get(a, ()) and not sw_is_tracing(f, bi) and sw.kind in ('bool', 'cmp', 'variant'):
+                if any(t in f.reachable([s]) for s in sw.labels for t in touch) and any(a in f.reachable([s]) for s in sw.labels):
+                    chain += [(bi, s) for s in sw.labels if a in f.reachable([s])]
+    return _guard_atoms(F, f, chain)
+
+
+def sw_is_tracing(f, bi):
+    t = f.term(bi)
+    return bool(t.get('exp')) and ('trace' in t['exp'] or 'debug' in t['exp'])
+
+
+def r5b_same_streams(ctx):
+    r = ctx.rule('C02.R5b', 'PAIR', 'a window decrease and a window increase apply to the same set of streams (sibling skip guards agree)')
+    F = ctx.facts
+    dec = [g for n, g in F.fns.items() if n.startswith(P + 'send::Send::apply_remote_settings::{closure') and g.calls_to(FC + 'dec_send_window')]
+    inc = F.fn(PRIO + '::recv_stream_window_update')
+    r.check(len(dec) == 1 and inc is not None, 'anchors', '', 'decrease closure and Prioritize::recv_stream_window_update found')
+    if len(dec) != 1 or inc is None:
+        return
+    a = skip_guard(F, dec[0])
+    b = skip_guard(F, inc)
+    r.check(a is not None and b is not None and bool(a) and a == b, 'skip-guards-agree', dec[0].file,
+            'streams skipped by a SETTINGS window decrease: %s; streams skipped by an increase / WINDOW_UPDATE: %s%s' % (sorted(a or []), sorted(b or []),
+            '' if a == b else ' — a stream that receives increments but not decrements ends up with more window than the peer granted'))
+    r.check(a is not None and 'field:buffered_send_data' in a and 'call:is_send_closed' in a, 'skip-guard|content', dec[0].file,
+            'a stream is skipped only when its send half is closed AND nothing is buffered (queued DATA still needs a correct window)')
+
+
+def r6_signed_windows(ctx):
+    r = ctx.rule('C02.R6', 'FLOW', 'negative windows are tracked: every update of FlowControl.window_size is computed from the signed field, never from the clamped accessors')
+    F = ctx.facts
+    FCT = P + 'flow_control::FlowControl'
+    WIN = P + 'flow_control::Window'
+    clamps = {FC + 'window_size', FC + 'available', WIN + '::as_size', WIN + '::checked_size'}
+    n = 0
+    for fname in ('inc_window', 'dec_send_window', 'dec_recv_window', 'send_data'):
+        f = r.fn(FC + fname)
+        if not f:
+            continue
+        ws = [(bi, rv, ln) for bi, si, pl, rv, ln in f.stmts() if core.write_target(f, pl) == (FCT, 'window_size')]
+        calls = [bi for bi, t in f.calls(lambda t: t['fn'] in (WIN + '::decrease_by', WIN + '::increase_by') and has_field(f.expr_of_op(t['a'][0]), FCT, 'window_size'))]
+        r.check(bool(ws) or bool(calls), 'updates|' + fname, f.file, '%s updates FlowControl.window_size (%d writes, %d in-place updates)' % (fname, len(ws), len(calls)))
+        for bi, rv, ln in ws:
+            n += 1
+            e = f.expr_of_rvalue(rv)
+            signed = mentions_field(e, WIN, '0') and mentions_field(e, FCT, 'window_size')
+            clamped = [x[1].split('::')[-1] for x in walk(e) if x[0] == 'call' and x[1] in clamps]
+            r.check(signed and not clamped, 'signed|' + fname, '%s:%d' % (f.file, ln),
+                    'new window = %s%s' % (core.show(e)[:90], '' if (signed and not clamped) else ' — computed through a clamping accessor (%s): a negative window is forgotten' % (clamped or 'no signed source')))
+    r.floor(n, 1, 'direct writes of FlowControl.window_size')
+
+
 def run(ctx):
     lens = r1_bounded_length(ctx)
     r2_double_entry(ctx, lens)
     r3_zero_window(ctx)
     C03.r8_checked_arith(ctx, 'C02.R4')
     r5_settings_delta(ctx)
+    r5b_same_streams(ctx)
+    r6_signed_windows(ctx)
